@@ -32,6 +32,7 @@ import (
 	gerrors "github.com/tochemey/goakt/v4/errors"
 	"github.com/tochemey/goakt/v4/internal/address"
 	"github.com/tochemey/goakt/v4/internal/types"
+	"github.com/tochemey/goakt/v4/internal/verifhook"
 )
 
 const (
@@ -209,6 +210,7 @@ func (pid *PID) deliverAcrossHandoff(ctx context.Context, actorName string, maxW
 		window = maxWait
 	}
 	deadline := start.Add(window)
+	verifhook.At("handoff.begin", pid, int64(maxWait), start.UnixNano())
 
 	// notFoundDeadline caps the shorter masking applied to a *failed*
 	// resolution. It is deliberately much shorter than the full window so a name
@@ -280,6 +282,7 @@ func (pid *PID) deliverAcrossHandoff(ctx context.Context, actorName string, maxW
 			system.recordRelocationHandoff(ctx)
 		}
 
+		verifhook.At("handoff.attempt", pid, int64(backoff), attemptDeadline.UnixNano())
 		if !sleepWithinHandoff(ctx, backoff, attemptDeadline) {
 			return nil, retryErr
 		}
@@ -326,6 +329,7 @@ func sleepWithinHandoff(ctx context.Context, duration time.Duration, deadline ti
 		duration = remaining
 	}
 
+	verifhook.At("handoff.sleep", nil, int64(duration), int64(remaining))
 	timer := time.NewTimer(duration)
 	defer timer.Stop()
 
